@@ -44,6 +44,7 @@ Fails(e) ==
                        \o F(e.snap = snap0, "evaluation modified the compiled program, its constants, the variable values or the function table")
     [] e.op = "reval" -> F(\A i \in 1 .. Len(memo) : memo[i][1] = e.env => memo[i][2] = e.result,
                            "evaluating again with equal inputs returned a different result")
+                         \o F(e.result = e.fresh, "an evaluation interleaved with evaluations under other variable sets differs from a fresh evaluation under the same values")
     [] e.op = "rend" -> F(e.snap = snap0, "evaluation modified the compiled program, its constants, the variable values or the function table")
     [] e.op = "race" -> F(e.races = 0, "the race detector reported a data race") \o F(e.mismatch = 0, "free-running concurrent evaluations returned results that differ from the sequential ones")
     [] OTHER -> ""
